@@ -565,7 +565,7 @@ static void dump_cfg(cfg_t *c, int depth)
 	unsigned i;
 	cfg_opt_t *o;
 	if (!c) { fputs("null", LOG); return; }
-	if (depth > 64) { fputs("\"deep\"", LOG); return; }
+	if (depth > 400) { fputs("\"deep\"", LOG); return; }
 	fputs("{\"name\":", LOG);
 	jhex(cfg_name(c));
 	fputs(",\"title\":", LOG);
